@@ -66,6 +66,12 @@ def bases(tier):
         sp = witness.containing(e, c, rich=True)
         if sp is not None and witness.size(sp) <= 60:
             out.append((f"with:{e}>{c}", gtree.assign_ids(from_listspec(sp)), 2 if witness.size(sp) > 12 else 3))
+    # a rich, valid EML document (the parametric tree of C19): several keyword sets, parties of every kind, a data table
+    from mc.props import c19
+    for i, params in enumerate((dict(keywords=(2, 3), metadataProvider=dict(), associatedParty=dict(uid="two"), other="text",
+                                     maint_desc="para", qc_desc="own", extent_desc="markdown"),
+                                dict(keywords=(1, 1, 1), abstract=("split", 20), rights="para", dt=dict(rd="direct")))):
+        out.append((f"rich:{i}", gtree.assign_ids(from_listspec(c19.build(params))), 2))
     # small trees with characters the EML exporter treats specially
     specials = ["a<b", "a&b", "a>b", "\"q\" 'r'", "a&amp;b", "x&lt;y", "<para>p</para>", "pre <para>p</para> post &gt;", "é\U0001F600", ""]
     for i, txt in enumerate(specials):
